@@ -123,6 +123,18 @@ def _not_prev(b, p, e_wal_ne):
     return b.must_pass(p.bb, through_edges=e_wal_ne)
 
 
+def _only_called_by_allowed(P, path, depth=3, seen=None):
+    """a private helper extracted from an allowed deleter: every (static) caller is an allowed deleter or such a helper"""
+    seen = seen or set()
+    if path in seen or depth < 0:
+        return False
+    seen.add(path)
+    callers = [c for c in P.callers_of(lambda c: c.callee == path) if not c.body.is_cleanup(c.bb)]
+    if not callers:
+        return False
+    return all(c.body.path in ALLOWED_DELETERS or _only_called_by_allowed(P, c.body.path, depth - 1, seen) for c in callers)
+
+
 def own4(P, R, L):
     R.clause("OWN-4", "FileSystem::{remove_file, remove_dir, remove_dir_all} are called only from the garbage collector's deleting "
              "section, destroy_database, and the four functions that remove a file they have just created; std::fs::remove_* only "
@@ -134,7 +146,7 @@ def own4(P, R, L):
                 continue
             if c.declared_name in REMOVERS and c.t.get("dyn"):
                 n += 1
-                ok = p in ALLOWED_DELETERS
+                ok = p in ALLOWED_DELETERS or _only_called_by_allowed(P, p)
                 R.check("OWN-4", "%s|calls=%s" % (p, c.declared_name.rsplit("::", 1)[1]), ok, c.where(),
                         "only the listed owners delete files", ALLOWED_DELETERS.get(p, "not an allowed deleter"))
                 R.analysed(b)
